@@ -83,7 +83,13 @@ def procVerdict (steps : List Processing) (ts : List Id) (impl : Res (List Id)) 
     else match steps with
       | [] => if out == ts then "HOLDS" else "FAILS no-steps-changed"
       | [p] => if Spec.stepHolds p ts out then "HOLDS" else "FAILS step-effect"
-      | _ => "HOLDS-NA"
+      | _ =>
+        -- a sequence is the composition of its steps, each with its documented effect (every step runs,
+        -- also on a sequence that an earlier step emptied); the single steps are tied to their
+        -- specifications by strip_spec, collapse_eq_spec, pad_spec and truncate_spec
+        (match processSteps steps ts with
+          | .ok expect => if expect == out then "HOLDS" else "FAILS sequence-not-composition"
+          | _ => "HOLDS-NA")
   | _ => "FAILS not-total"
 
 def handleProc (args : List String) (impl : List String) : String :=
